@@ -1165,6 +1165,163 @@ def enc_search(ctx, rebound, rng):
         ctx.violation(key, rep, True, what)
 
 
+# ----------------------------------------------------------------------------------------------- history vs fresh object (forces)
+def hvf_eval(rebound, sim):
+    """what a step does before it uses the forces: (tree gravity) update the tree and its gravity data; then the accelerations"""
+    clib = rebound.clibrebound
+    if sim.gravity == "tree":
+        clib.reb_simulation_update_tree(ctypes.byref(sim))
+        clib.reb_simulation_update_tree_gravity_data(ctypes.byref(sim))
+    clib.reb_simulation_update_acceleration(ctypes.byref(sim))
+    out = [v for p in sim.particles for v in (p.ax, p.ay, p.az)]
+    if sim.gravity == "compensated":
+        out += [v for i in range(sim.N) for v in (sim.gravity_cs[i].x, sim.gravity_cs[i].y, sim.gravity_cs[i].z)]
+    return out
+
+
+def hvf_fresh(rebound, sim):
+    """a new simulation holding the same particles (same order), time and force-related settings"""
+    f = rebound.Simulation()
+    f.G = sim.G; f.softening = sim.softening; f.opening_angle2 = sim.opening_angle2; f.t = sim.t; f.dt = sim.dt
+    if sim.root_size != -1:
+        f.configure_box(sim.root_size, sim.N_root_x, sim.N_root_y, sim.N_root_z)
+    f.boundary = sim.boundary
+    f.N_ghost_x, f.N_ghost_y, f.N_ghost_z = sim.N_ghost_x, sim.N_ghost_y, sim.N_ghost_z
+    f.integrator = sim.integrator
+    f.gravity = sim.gravity
+    for p in sim.particles:
+        f.add(m=p.m, x=p.x, y=p.y, z=p.z, vx=p.vx, vy=p.vy, vz=p.vz, r=p.r)
+    f.N_active = sim.N_active; f.testparticle_type = sim.testparticle_type; f.gravity_ignore = sim.gravity_ignore
+    return f
+
+
+def hvf_search(ctx, rebound, rng):
+    """an object with a history must give the same forces as a fresh object holding the same state (bit for bit: the force
+    routines have no legitimate memory): compensated-summation carries, a tree built for an earlier particle set, gravity routine
+    switched and switched back, remove+add with N unchanged, G / softening / opening angle / N_active changed between evaluations,
+    MERCURIUS/TRACE steps before (splitting state left in ri_mercurius / ri_trace)."""
+    import warnings
+    found = {}
+
+    def newsim(grav, n, box=None):
+        sim = rebound.Simulation()
+        sim.G = rng.choice([1.0, 39.476926421373]); sim.softening = rng.choice([0.0, 1e-3])
+        if box:
+            sim.configure_box(*box); sim.boundary = "open"
+        sim.gravity = grav
+        sim.opening_angle2 = rng.choice([0.0, 0.25, 1.0])
+        half = 0.45 * (box[0] if box else 20.0)
+        for i in range(n):
+            sim.add(m=rng.choice([0.0, 1e-3, 1.0]) * rng.uniform(0.5, 1.5), x=rng.uniform(-half, half), y=rng.uniform(-half, half), z=rng.uniform(-half, half),
+                    vx=rng.gauss(0, 0.1), vy=rng.gauss(0, 0.1), vz=rng.gauss(0, 0.1), r=1e-4)
+        return sim, half
+
+    def mutate(sim, half, what):
+        n = sim.N
+        if what == "move" and n:
+            for p in sim.particles:
+                p.x += rng.uniform(-0.1, 0.1) * half; p.y *= 0.9; p.z = -p.z * 0.5
+        elif what == "remove_add" and n:
+            sim.remove(index=rng.randrange(n))
+            sim.add(m=rng.uniform(0.1, 1), x=rng.uniform(-half, half), y=rng.uniform(-half, half), z=rng.uniform(-half, half), r=1e-4)
+        elif what == "remove" and n:
+            sim.remove(index=rng.randrange(n))
+        elif what == "add":
+            sim.add(m=rng.uniform(0.1, 1), x=rng.uniform(-half, half), y=rng.uniform(-half, half), z=rng.uniform(-half, half), r=1e-4)
+        elif what == "settings":
+            sim.G *= rng.choice([2.0, 0.5, -1.0]); sim.softening = rng.choice([0.0, 0.05, 1e-6]); sim.opening_angle2 = rng.choice([0.0, 0.3, 2.0])
+        elif what == "partition" and n:
+            sim.N_active = rng.choice([-1, 0, 1, n, rng.randint(0, n)]); sim.testparticle_type = rng.randint(0, 1)
+        elif what == "masses" and n:
+            for p in sim.particles:
+                p.m = rng.choice([0.0, p.m, 2 * p.m + 1e-3])
+
+    def judge(sim, hist):
+        a = hvf_eval(rebound, sim)          # first: the tree update may legitimately reorder particles[] (re-insertion)
+        fr = hvf_fresh(rebound, sim)
+        if fr.N != sim.N:
+            return
+        b = hvf_eval(rebound, fr)
+        ctx.evaluations += 1
+        ctx.nontrivial.add(("hvf", sim.gravity) + tuple(hist))
+        bad = [i for i, (u, v) in enumerate(zip(a, b)) if not vlib.same_bits(u, v)]
+        if bad or len(a) != len(b):
+            key = "history:%s:%s" % (sim.gravity, hist[-1])
+            found.setdefault(key, ({"history": list(hist), "gravity": sim.gravity, "N": sim.N, "first_difference": bad[:1],
+                                    "with_history": [float(x).hex() for x in a[:12]], "fresh": [float(x).hex() for x in b[:12]],
+                                    "particles": [[float(v).hex() for v in (p.m, p.x, p.y, p.z)] for p in sim.particles][:12]},
+                                   "forces of an object with history %s differ from those of a fresh object holding the same state" % (hist,)))
+
+    with warnings.catch_warnings():
+        warnings.simplefilter("ignore")
+        muts = ["move", "remove_add", "remove", "add", "settings", "partition", "masses"]
+        for rep in range(ctx.scale(2, 10)):
+            for grav in ("basic", "compensated", "tree", "jacobi"):
+                for m1 in muts:
+                    try:
+                        box = (rng.choice([10.0, 7.3]), rng.choice([1, 2]), 1, 1) if grav == "tree" else None
+                        sim, half = newsim(grav, rng.choice([0, 1, 2, 3, 5, 9]), box)
+                        if grav == "jacobi":
+                            sim.integrator = "whfast"
+                        hvf_eval(rebound, sim)                      # history: forces computed for the first state
+                        mutate(sim, half, m1)
+                        judge(sim, ("eval", m1))
+                        m2 = rng.choice(muts)
+                        mutate(sim, half, m2)
+                        judge(sim, ("eval", m1, m2))
+                        # gravity routine switched and switched back (tree kept while another routine is used)
+                        other = "compensated" if grav != "compensated" else "basic"
+                        sim.gravity = other
+                        hvf_eval(rebound, sim)
+                        mutate(sim, half, "move")
+                        if grav == "jacobi":
+                            sim.integrator = "whfast"
+                        sim.gravity = grav
+                        judge(sim, ("eval", m1, m2, "switch_%s_and_back" % other))
+                    except (RuntimeError, ValueError, AttributeError):
+                        continue
+            # splitting state: steps with MERCURIUS / TRACE / WHFast, then a plain force evaluation with BASIC/COMPENSATED
+            for integ in ("mercurius", "trace", "whfast", "ias15"):
+                try:
+                    sysd = seq_system(rng)
+                    sim = seq_make(rebound, sysd)
+                    sim.integrator = integ
+                    for _ in range(3):
+                        sim.step()
+                    sim.synchronize()
+                    if rng.random() < 0.5 and sim.N > 2:
+                        sim.remove(index=sim.N - 1)
+                        sim.add(m=1e-4, a=7.0, f=1.0)
+                    sim.integrator = "leapfrog"
+                    sim.gravity = rng.choice(["basic", "compensated"])
+                    sim.gravity_ignore = 0
+                    judge(sim, ("steps_" + integ, "plain_force"))
+                    # and continuing with the same integrator after remove+add with N unchanged: one more step vs fresh
+                    sim2 = seq_make(rebound, sysd); sim2.integrator = integ
+                    for _ in range(3):
+                        sim2.step()
+                    sim2.synchronize()
+                    k = sim2.N - 1
+                    sim2.remove(index=k)
+                    sim2.add(m=2e-4, a=6.0 + rng.random(), f=2.0)
+                    fr = hvf_fresh(rebound, sim2)
+                    sim2.step(); fr.step(); sim2.synchronize(); fr.synchronize()
+                    if abs(sim2.t - fr.t) <= 1e-15 * abs(fr.t):
+                        scale = max(abs(getattr(p, cc)) for p in fr.particles for cc in "xyz") or 1.0
+                        diff = max(abs(getattr(p, cc) - getattr(q_, cc)) for p, q_ in zip(sim2.particles, fr.particles) for cc in "xyz")
+                        ctx.evaluations += 1
+                        if not diff <= 1e-11 * scale and sim2.gravity == fr.gravity and sim2.gravity_ignore == fr.gravity_ignore:
+                            ctx.extra.setdefault("history_state_differences_not_force_related", []).append((integ + ":remove+add,N unchanged", float("%.3g" % diff)))
+                        elif not diff <= 1e-11 * scale:
+                            found.setdefault("history:selector:%s" % integ, ({"integrator": integ, "system": sysd, "gravity": [sim2.gravity, fr.gravity],
+                                             "gravity_ignore_terms": [sim2.gravity_ignore, fr.gravity_ignore], "diff": diff},
+                                             "after remove+add with N unchanged the force selectors differ from a fresh object"))
+                except (RuntimeError, ValueError, AttributeError):
+                    continue
+    for key, (rep, what) in sorted(found.items()):
+        ctx.violation(key, rep, True, what)
+
+
 # ----------------------------------------------------------------------------------------------- main
 def run(ctx):
     libdir = ctx.lib(tag="c02")   # own build directory: concurrent checks with another VERIF_REPO purge lib-default-*
@@ -1297,6 +1454,7 @@ def run(ctx):
     searcher(ctx, rebound, rng)
     seq_search(ctx, rebound, rng)
     enc_search(ctx, rebound, rng)
+    hvf_search(ctx, rebound, rng)
     ctx.rule = ("correspondence: every (routine, N_active in {-1,0..N}, testparticle_type, gravity_ignore_terms, ghost/boundary/root-box "
                 "variant) combination for N<=5 and a thinned set for larger N (to 40 quick / 200 thorough), masses incl. 0 and ratios "
                 "1e-12, random G/softening/positions incl. close pairs; a case is distinct by (routine,N,N_active,type,ign,ghost); "
